@@ -80,7 +80,6 @@ void make_items(const Options& o, std::vector<Item>& items)
         }
         for (int N = 2; N <= (thorough ? 4 : 3); N++) {
             if (N == 4 && G == 4) continue;
-            if (!thorough && N == 3 && G == 3) continue;
             hx::multisets((int)cfg.size(), N, [&](const std::vector<int>& idx) {
                 Prog p;
                 p.G = G;
